@@ -117,12 +117,17 @@ int main(int argc, char** argv)
             std::uintptr_t x = std::stoull(a), y = std::stoull(b);
             if (spec) {
                Specifiers p{x}, q{y};
+               // the compound assignment forms answer what the binary forms answer (checked on every pair)
+               { Specifiers a = p, b = p, c = p; a |= q; b &= q; c ^= q;
+                 if (raw(a) != raw(p | q) or raw(b) != raw(p & q) or raw(c) != raw(p ^ q)) { std::cout << "!compound-assignment-differs\n"; continue; } }
                if (op == "or") std::cout << raw(p | q) << '\n';
                else if (op == "and") std::cout << raw(p & q) << '\n';
                else if (op == "xor") std::cout << raw(p ^ q) << '\n';
                else std::cout << (implies(p, q) ? 1 : 0) << '\n';
             } else {
                Qualifiers p{x}, q{y};
+               { Qualifiers a = p, b = p, c = p; a |= q; b &= q; c ^= q;
+                 if (raw(a) != raw(p | q) or raw(b) != raw(p & q) or raw(c) != raw(p ^ q)) { std::cout << "!compound-assignment-differs\n"; continue; } }
                if (op == "or") std::cout << raw(p | q) << '\n';
                else if (op == "and") std::cout << raw(p & q) << '\n';
                else if (op == "xor") std::cout << raw(p ^ q) << '\n';
